@@ -609,7 +609,7 @@ int vf_run_case(Src &s, Report &r) {
 			memcpy(fb, txv[i].b, 42);
 			unsigned cnt = s.chance(1, 4) ? 1 + s.pick(40) : 1;
 			for (unsigned c = 0; c < cnt; ++c) {
-				int col = (int) s.pick(40);
+				int col = (int) s.pick(48); if (col >= 40) col = col >= 44 ? 39 : 0;	// the first and the last column a little more often
 				if (!tcols.empty() && s.chance(1, 2)) col = tcols[s.pick((uint32_t) tcols.size())];
 				else if (!xcols.empty() && s.chance(1, 4)) { auto it = xcols.begin(); std::advance(it, s.pick((uint32_t) xcols.size())); col = *it; }
 				if (ov.count(txv[i].row * 64 + col)) { r.cls("parity-fault-position-overridden-by-X/26-skipped"); continue; }
